@@ -1565,3 +1565,11 @@ M.contract(P_IMPL + '.apply', params=dict(self=IMPL), ghosts=dict(orig=Str),
                        (_calls(trace) == [('read-rest', old[2])] if old[2] is not None else
                         [c[0] for c in _calls(trace)] in ([], ['switch-section', 'read-rest']))),
            })
+
+
+# ============================================================================== bounded stand-in (DESIGN 2.6)
+
+@M.bounded('assembled document parser on all small documents')
+def _assembled_parser_on_small_documents(ctx):
+    from contracts import C07_bounded
+    C07_bounded.run(ctx)
